@@ -440,7 +440,7 @@ func dumpFiles(files map[string]string) string {
 
 func init() { reg("c16", checkC16) }
 
-var badDictKinds = []string{"dangling-attribute", "dangling-extends", "cycle-1", "cycle-2", "cycle-3", "lasso-1", "lasso-2", "lasso-display", "cycle-via-display", "dangling-extends-name-is-display", "dangling-attribute-name-is-display", "cycle-name-is-display", "unnamed-chord", "unnamed-attribute"}
+var badDictKinds = []string{"dangling-attribute", "dangling-extends", "cycle-1", "cycle-2", "cycle-3", "lasso-1", "lasso-2", "lasso-display", "cycle-via-display", "extends-names-an-attribute", "attribute-names-a-chord", "attribute-names-a-display", "dangling-extends-name-is-display", "dangling-attribute-name-is-display", "cycle-name-is-display", "unnamed-chord", "unnamed-attribute"}
 
 // badDictExtra returns the entries that make a dictionary inconsistent in the given way.
 func badDictExtra(bad string) ([]UChord, []UAttr) {
@@ -463,6 +463,12 @@ func badDictExtra(bad string) ([]UChord, []UAttr) {
 		return []UChord{{Name: "Lead", Display: "lead", Attrs: []string{"Major3"}, Extends: "cyc1"}, {Name: "Cyc1", Display: "cyc1", Attrs: []string{"Perfect1"}, Extends: "cyc1"}}, nil
 	case "cycle-via-display":
 		return []UChord{{Name: "CycA", Display: "cyca", Attrs: []string{"Perfect1"}, Extends: "cycb"}, {Name: "CycB", Display: "cycb", Extends: "cyca"}}, nil
+	case "extends-names-an-attribute": // dangling in its own namespace, although the name exists in the other one
+		return []UChord{{Name: "BadX", Display: "badx", Attrs: []string{"Perfect1"}, Extends: "Major7"}}, nil
+	case "attribute-names-a-chord":
+		return []UChord{{Name: "BadY", Display: "bady", Attrs: []string{"Perfect1", "MajorTriad"}}}, nil
+	case "attribute-names-a-display":
+		return []UChord{{Name: "BadZ", Display: "badz", Attrs: []string{"Perfect1", "m7"}}}, nil
 	case "dangling-extends-name-is-display": // a chord registered under one key only (name == display)
 		return []UChord{{Name: "pow", Display: "pow", Attrs: []string{"Perfect1"}, Extends: "NoSuchChord"}}, nil
 	case "dangling-attribute-name-is-display":
